@@ -2,6 +2,7 @@ import HailVerif.Proofs.ExprTyping
 import HailVerif.Proofs.PyImpute
 import HailVerif.Proofs.TableType
 import HailVerif.Proofs.MatrixType
+import HailVerif.Proofs.FnRegistry
 /-!
 # C36 — Front-end types agree with the IR it emits
 
@@ -211,6 +212,57 @@ example : (MatrixType.unionCols ⟨[], [("col_idx", .int32)], ["col_idx"], [("ro
       ⟨[], [("col_idx", .int32)], ["col_idx"], [("row_idx", .int32), ("q", .str)], ["row_idx"], []⟩).map (·.row)
     = some [("a", .int32), ("row_idx", .int32), ("q", .str)] := by decide
 
+
+/-! ## Calls of registry functions (`Apply name () ret args…`): the engine's signature unification -/
+
+/-- the registered `(array<T>, T) → array<T>` / `(set<T>, T) → …` signatures unify with a call exactly when the item argument has the
+element type — the Python side must therefore coerce the item BEFORE it builds the `Apply` -/
+theorem registry_item_calls (t : HType) :
+    FnRegistry.applyOk "append" [.array t, t] (.array t) = true ∧ FnRegistry.applyOk "add" [.set t, t] (.set t) = true ∧
+    FnRegistry.applyOk "remove" [.set t, t] (.set t) = true ∧ FnRegistry.applyOk "contains" [.array t, t] .bool = true ∧
+    FnRegistry.applyOk "contains" [.set t, t] .bool = true := FnRegistry.item_call_ok t
+
+theorem registry_item_calls_need_equal {t u : HType} (h : u ≠ t) :
+    FnRegistry.applyOk "append" [.array t, u] (.array t) = false ∧ FnRegistry.applyOk "add" [.set t, u] (.set t) = false ∧
+    FnRegistry.applyOk "remove" [.set t, u] (.set t) = false ∧ FnRegistry.applyOk "contains" [.array t, u] .bool = false :=
+  ⟨(FnRegistry.item_call_needs_equal h).1, (FnRegistry.item_call_needs_equal h).2.1, (FnRegistry.item_call_needs_equal h).2.2,
+    FnRegistry.array_contains_needs_equal h⟩
+
+theorem registry_collection_calls (t : HType) :
+    FnRegistry.applyOk "extend" [.array t, .array t] (.array t) = true ∧ FnRegistry.applyOk "union" [.set t, .set t] (.set t) = true ∧
+    FnRegistry.applyOk "intersection" [.set t, .set t] (.set t) = true ∧
+    FnRegistry.applyOk "difference" [.set t, .set t] (.set t) = true ∧ FnRegistry.applyOk "isSubset" [.set t, .set t] .bool = true :=
+  FnRegistry.same_collection_ok t
+
+theorem registry_dict_calls (k v : HType) :
+    FnRegistry.applyOk "get" [.dict k v, k, v] v = true ∧ FnRegistry.applyOk "get" [.dict k v, k] v = true ∧
+    FnRegistry.applyOk "contains" [.dict k v, k] .bool = true ∧ FnRegistry.applyOk "index" [.dict k v, k] v = true ∧
+    FnRegistry.applyOk "keySet" [.dict k v] (.set k) = true ∧ FnRegistry.applyOk "keys" [.dict k v] (.array k) = true ∧
+    FnRegistry.applyOk "values" [.dict k v] (.array v) = true := FnRegistry.dict_call_ok k v
+
+/-- **the coerced call is well typed**: `a.append(x)` emitted as `(Apply append Array[t] a (Cast x t))` — the item converted to the
+element type first — is typable whenever `a : array<t>` and `x` is of a type that converts to `t`; … -/
+theorem coerced_append_well_typed (Γ : Ctx) (Δ : Option Ctx) (a x : IR) (s t : HType)
+    (ha : inferType Γ Δ a = some (.array t)) (hx : inferType Γ Δ x = some s)
+    (hc : ((isNumeric s || decide (s = .bool)) && isNumeric t) = true) :
+    inferType Γ Δ (.applyFn "append" (.tcons a (.tcons (.cast x t) .tnil)) (.array t)) = some (.array t) := by
+  simp only [Bool.and_eq_true, Bool.or_eq_true, decide_eq_true_eq] at hc
+  have h1 : (isNumeric s = true ∨ s = .bool) := hc.1
+  simp [inferType, ha, hx, h1, hc.2, FnRegistry.typesToList, (FnRegistry.item_call_ok t).1]
+
+/-- … while the same call with the item passed as it is (the seeded `ArrayExpression.append`, and `ArrayExpression.contains` of
+/repo before its repair) has no function in the registry: the IR is ill typed whatever type the front end reports -/
+theorem uncoerced_append_ill_typed (Γ : Ctx) (Δ : Option Ctx) (a x : IR) (s t : HType)
+    (ha : inferType Γ Δ a = some (.array t)) (hx : inferType Γ Δ x = some s) (hne : s ≠ t) :
+    inferType Γ Δ (.applyFn "append" (.tcons a (.tcons x .tnil)) (.array t)) = none ∧
+    inferType Γ Δ (.applyFn "contains" (.tcons a (.tcons x .tnil)) .bool) = none := by
+  simp [inferType, ha, hx, FnRegistry.typesToList, (FnRegistry.item_call_needs_equal hne).1,
+    FnRegistry.array_contains_needs_equal hne]
+
+/-- `hl.array([1.0]).append(hl.int32(1))` as the seeded front end emits it, and with the conversion -/
+example : inferType [] none (.applyFn "append" (.tcons (.acons (.f64 1) (.anil .float64)) (.tcons (.i32 1) .tnil)) (.array .float64)) = none
+    ∧ inferType [] none (.applyFn "append" (.tcons (.acons (.f64 1) (.anil .float64)) (.tcons (.cast (.i32 1) .float64) .tnil))
+        (.array .float64)) = some (.array .float64) := by decide
 
 /-- `hl.int32(3) + 4.5` as emitted: `(ApplyBinaryPrimOp + (Apply toFloat64 () Float64 (I32 3)) (F64 4.5))` -/
 example : inferType [] none (.bin .add (.ascribe (.cast (.i32 3) .float64) .float64) (.f64 4)) = some .float64 := by decide
